@@ -563,9 +563,15 @@ func createIndexes(ts *Schema, ti *Info, idxs []schema.Index, store *stor.Stor) 
 	}
 	idxs = ts.SetupNewIndexes(nold)
 	ti.Indexes = slices.Clip(ti.Indexes) // copy on write
+	// the new overlays must have as many layers as the existing ones
+	// (there may be committed but unmerged layers)
+	nlayers := 1
+	if len(ti.Indexes) > 0 {
+		nlayers = ti.Indexes[0].Nlayers()
+	}
 	for range idxs {
 		bt := btree.CreateBtree(store)
-		ti.Indexes = append(ti.Indexes, index.OverlayFor(bt))
+		ti.Indexes = append(ti.Indexes, index.OverlayForN(bt, nlayers))
 	}
 }
 
